@@ -1676,11 +1676,13 @@ func toStatementApi(s *oc.Statement) *api.Statement {
 			return api.RouteAction_ROUTE_ACTION_UNSPECIFIED
 		}(),
 		Community: func() *api.CommunityAction {
-			if len(s.Actions.BgpActions.SetCommunity.SetCommunityMethod.CommunitiesList) == 0 {
+			// "replace" with an empty list (strip all communities) is a valid action
+			t := communityAction(s.Actions.BgpActions.SetCommunity.Options)
+			if t == api.CommunityAction_TYPE_UNSPECIFIED {
 				return nil
 			}
 			return &api.CommunityAction{
-				Type:        communityAction(s.Actions.BgpActions.SetCommunity.Options),
+				Type:        t,
 				Communities: s.Actions.BgpActions.SetCommunity.SetCommunityMethod.CommunitiesList,
 			}
 		}(),
